@@ -18,7 +18,9 @@ import (
 	"golang.org/x/tools/go/ssa/ssautil"
 )
 
-const repoDir = "/repo"
+// repoDir is /repo for every registered check; VERIF_REPO points the engine at a scratch
+// worktree when seeded changes are evaluated in parallel (tools/seedtest.sh).
+var repoDir = "/repo"
 
 var progressEvery time.Duration
 
@@ -264,6 +266,9 @@ func numWorkers() int {
 func main() {
 	if d := os.Getenv("VERIF_DIR"); d != "" {
 		verifDir = d
+	}
+	if d := os.Getenv("VERIF_REPO"); d != "" {
+		repoDir = d
 	}
 	if len(os.Args) < 2 {
 		fmt.Fprintln(os.Stderr, "usage: gosx job|check|replay ...")
